@@ -95,20 +95,24 @@ def skipLeftovers : Nat → Reader → Option Err × Reader
 
 def le16 (lo hi : Byte) : Nat := lo.toNat + 256 * hi.toNat
 
+/-- `Tap::next_block` after the leftovers of the previous block have been skipped: the two size
+bytes, then the first window of the block. -/
+def readHeader (r : Reader) : Except Err Bool × Reader :=
+  let (szb, ok, a) := r.asset.readExact 2
+  let r := { r with asset := a }
+  if !ok then (.ok false, { r with tapeEnded := true }) else
+  let blockSize := le16 (szb.getD 0 0) (szb.getD 1 0)
+  let (bytes, ok, a) := r.asset.readExact (min blockSize BUFFER_SIZE)
+  let r := { r with asset := a, buffer := blit bytes r.buffer }
+  if !ok then (.error .eof, r) else
+  (.ok true, { r with bufferOffset := 0, blockBytesRead := 0, currentBlockSize := some blockSize })
+
 /-- `Tap::next_block` -/
 def nextBlock (r : Reader) : Except Err Bool × Reader :=
   if r.tapeEnded then (.ok false, r) else
   match skipLeftovers 65536 r with
   | (some e, r) => (.error e, r)
-  | (none, r) =>
-    let (szb, ok, a) := r.asset.readExact 2
-    let r := { r with asset := a }
-    if !ok then (.ok false, { r with tapeEnded := true }) else
-    let blockSize := le16 (szb.getD 0 0) (szb.getD 1 0)
-    let (bytes, ok, a) := r.asset.readExact (min blockSize BUFFER_SIZE)
-    let r := { r with asset := a, buffer := blit bytes r.buffer }
-    if !ok then (.error .eof, r) else
-    (.ok true, { r with bufferOffset := 0, blockBytesRead := 0, currentBlockSize := some blockSize })
+  | (none, r) => readHeader r
 
 /-- the reader part of `Tap::rewind` -/
 def Reader.rewind (r : Reader) : Reader :=
@@ -314,16 +318,18 @@ def loadLoop : Nat → LoadSt → Mem → Reader → Except Err (LoadSt × Byte)
         if s.acc ≠ 0 then (.ok (s, 0), m, r)
         else loadLoop n { s with dest := s.dest + 1, len := s.len - 1 } m r
 
+/-- "set regs to new state", RET, new flags -/
+def Cpu.finish (c : Cpu) (s : LoadSt) (flags : Byte) (m : Mem) : Cpu :=
+  let c := { c with ix := s.dest, de := s.len,
+                    hl := BitVec.ofNat 16 (s.cur.toNat + 256 * s.parity.toNat), a := s.acc }
+  { c.popPc m with f := flags }
+
 /-- everything after `next_block()` returned true -/
 def fastLoadBody (c : Cpu) (m : Mem) (t : Tap) (rd : Reader) : Option Err × Cpu × Mem × Tap :=
   let s : LoadSt := { acc := c.a, f := c.f, dest := c.ix, len := c.de }
   match loadLoop 65537 s m rd with
   | (.error e, m, rd) => (some e, c, m, { t with rd := rd })
-  | (.ok (s, flags), m, rd) =>
-    let c := { c with ix := s.dest, de := s.len,
-                      hl := BitVec.ofNat 16 (s.cur.toNat + 256 * s.parity.toNat), a := s.acc }
-    let c := c.popPc m
-    (none, { c with f := flags }, m, { t with rd := rd })
+  | (.ok (s, flags), m, rd) => (none, c.finish s flags m, m, { t with rd := rd })
 
 /-- `fast_load_tap`. `fixed = false`: AF is swapped before the tape is asked for a block (the code
 as it is); `fixed = true`: the block is requested first (proposed_fixes/C10-1.diff). -/
@@ -387,10 +393,10 @@ def sysCall (fixed : Bool) (r : Request) (sp : BitVec 16) (m : Mem) (t : Tap) :
   match fastLoadEvent fixed (cpuAtTrap r sp) (memAtTrap m sp) t with
   | (some e, c, m, t) => (.error e, c, m, t)
   | (none, c, m, t) =>
-    if c.pc = SA_LD_RET then (.returned (c.f &&& FLAG_CARRY ≠ 0), c, m, t)
+    if c.pc = SA_LD_RET then (.returned (c.f &&& FLAG_CARRY != 0), c, m, t)
     else if c.pc = LD_BREAK then
       -- RET NZ at 0x056B
-      if c.f &&& FLAG_ZERO = 0 then (.returned (c.f &&& FLAG_CARRY ≠ 0), c, m, t)
+      if c.f &&& FLAG_ZERO = 0 then (.returned (c.f &&& FLAG_CARRY != 0), c, m, t)
       else (.loops, c, m, t)
     else (.error .fuel, c, m, t)   -- stack overwritten by the load: not explored by the check
 
